@@ -561,3 +561,10 @@ add('c14-declaration-checks-digits', ['C14'], 'fire', 'Recipe.transfer',
     '    if not isinstance(quantity, str):\n        raise TypeError("Volume must be a str. (\'5 mL\')")',
     '    if not isinstance(quantity, str):\n        raise TypeError("Volume must be a str. (\'5 mL\')")\n    if not quantity.split(\' \')[0].replace(\'.\', \'\', 1).isdigit():\n        raise ValueError(\'bad amount\')',
     "'5e-1 mL' is refused by Recipe.transfer only")
+add('c01-get-or-zero', ['C01', 'C02', 'C10'], 'silent', 'Container._transfer',
+    'to.contents.get(substance, 0) + to_transfer', '(to.contents.get(substance) or 0) + to_transfer',
+    'd.get(k) or 0 is d.get(k, 0) on a mapping of numbers')
+add('c07-shape-compared-by-identity', ['C07', 'C03'], 'fire', 'PlateSlicer._transfer',
+    'if frm.shape != (1, 1):', 'if frm.shape is not (1, 1):', 'a tuple display is never the same object')
+add('c16-bake-closes-on-truthiness', ['C16', 'C08'], 'fire', 'Recipe.bake',
+    "if self.current_stage != 'all':", 'if self.current_stage:', "the marker 'all' counts as an open stage")
